@@ -4,7 +4,7 @@ import ast
 
 from .. import AnalysisError
 from ..cfg import ALL_KINDS, NORMAL_KINDS, iter_own
-from ..lib import dominated_by, iteration_paths, guard_forms, key_of, norm, render, type_is
+from ..lib import collections_from, dominated_by, iteration_paths, guard_forms, key_of, norm, render, type_is
 from ..report import describe, rule
 from .common import report_role, role_typestate
 
@@ -115,20 +115,17 @@ def c13_3(ctx, r):
 @rule(P, "C13.4", "T1", "pruning keeps every unselected row; the state reset touches only selected names", min_obligations=4)
 def c13_4(ctx, r):
     fn = ctx.fn("ResultsAggregator.clear_results_for_resubmission", "C13.4")
-    comps = [n for n in iter_own(fn.node) if isinstance(n, (ast.ListComp, ast.GeneratorExp))]
+    def all_rows(e):
+        site = ctx.cg.site_of(fn, e) if isinstance(e, ast.Call) else None
+        return site is not None and any(site.calls_short(ctx.ix, x) for x in ("ResultsAggregator.get_results", "ResultsAggregator.get_results_unsafe", "ResultsAggregator._get_results", "ResultsAggregator._get_all_results"))
+
+    cols = collections_from(ctx, fn, all_rows)
     ok = False
-    for c in comps:
-        g = c.generators[0]
-        src = render(ctx, fn, g.iter)
-        if len(g.ifs) == 1 and isinstance(c.elt, ast.Name) and isinstance(g.target, ast.Name) and c.elt.id == g.target.id:
-            key, pol, e = __import__("jcheck.guards", fromlist=["canon"]).canon(g.ifs[0])
-            site = ctx.cg.site_of(fn, g.iter) if isinstance(g.iter, ast.Call) else None
-            all_rows = site is not None and any(
-                site.calls_short(ctx.ix, x)
-                for x in ("ResultsAggregator.get_results", "ResultsAggregator.get_results_unsafe", "ResultsAggregator._get_results", "ResultsAggregator._get_all_results")
-            )
-            if key == f"{g.target.id}.name in jobs_to_resubmit" and pol is False and all_rows:
-                ok = True
+    kept_var = None
+    for c in cols:
+        # exactly one condition on the row: its name is not selected (both spellings / operand orders are in the set)
+        if c["elt"] == "_" and c["conds"] and all(f in ("_.name in jobs_to_resubmit", "<Result.name> in jobs_to_resubmit") and p is False for f, p in c["conds"]):
+            ok, kept_var = True, c["into"]
     r.check(ok, "kept rows = [x for x in get_results() if x.name not in jobs_to_resubmit]", key_of(fn, "kept rows filter"), fn.loc(),
             "the rows kept by clear_results_for_resubmission are not selected by `name not in jobs_to_resubmit` over all current results: results of untouched jobs are lost or rerun jobs keep stale rows",
             "results of all other jobs are preserved")
@@ -137,7 +134,7 @@ def c13_4(ctx, r):
         raise AnalysisError("C13.4", "no _write_results call in clear_results_for_resubmission")
     for s in ws:
         a = s.node.args[0] if s.node.args else None
-        r.check(isinstance(a, ast.Name) and a.id == "results", "the filtered list is what is written back", key_of(fn, "write filtered"), s.loc, "_write_results is not given the filtered list")
+        r.check(isinstance(a, ast.Name) and kept_var is not None and a.id == kept_var, "the filtered list is what is written back", key_of(fn, "write filtered"), s.loc, "_write_results is not given the filtered list")
     # writer: header + all rows, no filtering
     wf = ctx.fn("ResultsAggregator._write_results", "C13.4")
     conds = [n for n in iter_own(wf.node) if isinstance(n, (ast.If, ast.IfExp))]
@@ -318,3 +315,37 @@ def c13_6(ctx, r):
             a = ctx.arg_for(s, init, "is_new")
             r.check(isinstance(a, ast.Constant) and a.value is False, "JobSubmitter.load constructs with is_new=False", key_of(load, "is_new"), s.loc,
                     f"JobSubmitter.load constructs with is_new={ctx.src(a) if a is not None else None}: setup command and ResultsAggregator.create rerun, erasing results")
+
+
+@rule(P, "C13.7", "T1", "each selection flag selects its own class of jobs and nothing else decides it", min_obligations=4)
+def c13_7(ctx, r):
+    fn = ctx.fn("resubmit_jobs._get_jobs_to_resubmit", "C13.7")
+    cfg = ctx.cfg(fn)
+    flags = [p for p in fn.params if p in ("failed", "missing", "successful")]
+    if len(flags) != 3:
+        raise AnalysisError("C13.7", f"_get_jobs_to_resubmit flags are {flags}")
+    want = {"canceled": "failed", "failed": "failed", "successful": "successful"}
+    seen = set()
+    for n in cfg.nodes:
+        a = n.ast
+        if n.kind != "stmt" or not isinstance(a, (ast.AugAssign, ast.Expr, ast.Assign)):
+            continue
+        keys = [x.slice.value for x in ast.walk(a) if isinstance(x, ast.Subscript) and isinstance(x.slice, ast.Constant) and x.slice.value in want and isinstance(x.ctx, ast.Load)]
+        miss = [c for c in ast.walk(a) if isinstance(c, ast.Call) and isinstance(c.func, ast.Attribute) and c.func.attr == "get_missing_jobs"]
+        for what, flag in [(k, want[k]) for k in keys] + [("missing", "missing") for _ in miss]:
+            if not isinstance(a, ast.AugAssign) and not any(isinstance(c, ast.Call) and isinstance(c.func, ast.Attribute) and c.func.attr in ("extend", "update") for c in ast.walk(a)):
+                continue
+            seen.add(what)
+            forms = {(f, p) for f, p in guard_forms(ctx, fn, n) if f in flags}
+            r.check(forms == {(flag, True)}, f"'{what}' jobs are selected iff --{flag}", key_of(fn, f"{what} selected under {sorted(('' if p else 'not ') + f for f, p in forms)}"), fn.loc(a),
+                    f"the {what} jobs are added to the rerun set under {sorted(('' if p else 'not ') + f for f, p in forms)} instead of exactly `{flag}`: some flag combinations rerun other jobs than the ones selected "
+                    "(the command still exits 0)", "reruns exactly the jobs selected by its flags (failed/canceled, missing, successful)")
+    if seen != {"canceled", "failed", "successful", "missing"}:
+        raise AnalysisError("C13.7", f"selections recognised: {sorted(seen)}")
+
+
+@rule(P, "C13.8", "T3", "the reset persists what it changed: job states and counters reach both files before the command goes on", min_obligations=3)
+def c13_8(ctx, r):
+    from .c09 import c09_10
+
+    c09_10(ctx, r)
